@@ -603,7 +603,7 @@ func (s *Server) stopLocked(err error) {
 	var keep jmessages
 	s.inq.Each(func(cur jmessages) bool {
 		for _, req := range cur {
-			if req.isNotification() {
+			if req.err == nil && req.isNotification() {
 				keep = append(keep, req)
 				s.log("Retaining notification %p", req)
 			} else {
